@@ -175,6 +175,7 @@ type c11Stress struct {
 	delivered    atomic.Int64
 	writerStops  atomic.Int64
 	canary       atomic.Int64
+	machineStalls atomic.Int64
 
 	panMu      sync.Mutex
 	panSamples []c11PanicSample
@@ -689,6 +690,10 @@ func (st *c11Stress) finishResult() {
 		res.HookHits["verifhook:"+n] = int64(verifhook.Hits(n))
 	}
 	res.ForeignHooks = st.foreignHooks.Load()
+	res.Counters["machine_stall_episodes_no_verdict"] = int(st.machineStalls.Load())
+	res.Counters["writer_goroutines_parked_at_final_quiescence_max"] += 0
+	res.Counters["writer_goroutines_leaked"] += 0
+	res.Counters["carve_out_remover_window"] += 0
 	res.Counters["closeFn_calls"] = int(st.closeFnCalls.Load())
 	res.Counters["envelopes_delivered_to_writers"] = int(st.delivered.Load())
 	res.Counters["writers_stopped_by_send_error"] = int(st.writerStops.Load())
@@ -797,15 +802,21 @@ func (st *c11Stress) monitor() {
 			sort.Strings(kinds)
 			buf := make([]byte, 1<<20)
 			buf = buf[:runtime.Stack(buf, true)]
+			if canTicks < int64(window/time.Millisecond)/20 {
+				// the canary (pure harness goroutine) did not run either: the machine or the
+				// process was stalled, not the hub. No verdict from this window; keep watching.
+				st.machineStalls.Add(1)
+				for j := range since {
+					since[j] = now
+					canAt[j] = st.canary.Load()
+				}
+				break
+			}
 			st.resMu.Lock()
 			st.res.Stalled = true
-			if canTicks < int64(window/time.Millisecond)/20 {
-				st.res.Inconclusive = append(st.res.Inconclusive, fmt.Sprintf("%s: no operation progress for %s but the canary goroutine made only %d ticks: machine stalled, no verdict", st.spec.ID, window, canTicks))
-			} else {
-				st.res.violate("stall:"+strings.Join(kinds, "+"),
-					fmt.Sprintf("worker %d inside %s made no progress for %s (operation counters frozen, canary ran %d ticks): hub operations in flight: %v", i, c11KindName[w.inflight.Load()-1], window, canTicks, kinds),
-					map[string]any{"spec": st.spec}, map[string]any{"goroutines": c11Trunc(string(buf), 60000)})
-			}
+			st.res.violate("stall:hub-operations-frozen",
+				fmt.Sprintf("worker %d inside %s made no progress for %s (operation counters frozen while the canary goroutine ran %d ticks); hub operations in flight: %v", i, c11KindName[w.inflight.Load()-1], window, canTicks, kinds),
+				map[string]any{"spec": st.spec, "in_flight": kinds}, map[string]any{"goroutines": c11Trunc(string(buf), 60000)})
 			st.finishResult()
 			_ = c11WriteJSON(st.out, st.res)
 			os.Exit(0)
